@@ -2,6 +2,9 @@ package ircserver
 
 import "gopkg.in/sorcix/irc.v2"
 
+// maxUsernameLen is the maximum number of bytes kept of a user name.
+const maxUsernameLen = 64
+
 func init() {
 	Commands["USER"] = &ircCommand{
 		Func:      (*IRCServer).cmdUser,
@@ -13,6 +16,12 @@ func (i *IRCServer) cmdUser(s *Session, reply *Replyctx, msg *irc.Message) {
 	// We keep the username (so that bans are more effective) and realname
 	// (some people actually set it and look at it).
 	s.Username = msg.Params[0]
+	if len(s.Username) > maxUsernameLen {
+		// An overlong user name makes the prefix of every line relayed from
+		// this session exceed the IRC line length limit, which truncates
+		// away the command and all parameters.
+		s.Username = s.Username[:maxUsernameLen]
+	}
 	s.Realname = msg.Trailing()
 	s.updateIrcPrefix()
 	i.maybeLogin(s, reply, msg)
